@@ -296,26 +296,35 @@ def rule_rule_on_enter(db: ProgramDB) -> List[Instance]:
                                  and isinstance(a.value, ast.Constant) and a.value.value is True for a in own_nodes(pi.node))
     out.append(inst("RULE-ON-ENTER", HOLDS if ok1 else VIOLATION, qod, "QueryObjectDescriptor.__post_init__[written inside a rule block]",
                     "a descriptor built in rule mode is flagged as a rule" if ok1 else "a descriptor built in rule mode is not flagged as a rule"))
-    # (2) when a block is opened on the query
+    # (2) when a block is opened on the query: the flag is set on the way rule_mode(query) takes (symbolic_mode / __enter__),
+    # and only for a RULE block - a query-mode block opened on a query (implicit binding of predicates) leaves it a query
     se = db.cls("SymbolicExpression")
-    en = se.methods.get("__enter__")
-    if en is None:
-        raise AnalysisError("SymbolicExpression.__enter__ not found")
-    sets = [a for a in own_nodes(en.node) if isinstance(a, ast.Assign) and any(isinstance(t, ast.Attribute) and t.attr == "rule_mode" for t in a.targets)
-            and isinstance(a.value, ast.Constant) and a.value.value is True]
-    ok2 = False
-    for a in sets:
-        g = guards_of(a, en.node.body) or []
-        if any("in_rule_mode" in unparse(t) and pol for t, pol in g):
-            ok2 = True
-    sm = db.fn("symbolic:symbolic_mode")
-    passes = any(isinstance(c, ast.Call) and call_attr(c) == "__enter__" and any(k.arg == "in_rule_mode" and isinstance(k.value, ast.Constant) and k.value.value is True
-                                                                                 for k in c.keywords) for c in own_calls(sm))
-    out.append(inst("RULE-ON-ENTER", HOLDS if ok2 and passes else VIOLATION, en, "SymbolicExpression.__enter__[a rule block opened on the query]",
-                    "opening a rule block on a query flags its descriptor as a rule" if ok2 and passes else
+    sites = []
+    for fn in [se.methods.get("__enter__"), db.fn("symbolic:symbolic_mode", required=False), db.fn("symbolic:rule_mode", required=False)]:
+        if fn is None:
+            continue
+        for a_ in own_nodes(fn.node):
+            if isinstance(a_, ast.Assign) and any(isinstance(t, ast.Attribute) and t.attr == "rule_mode" for t in a_.targets) \
+                    and isinstance(a_.value, ast.Constant) and a_.value.value is True:
+                g = guards_of(a_, fn.node.body) or []
+                rule_guard = any(pol and "EQLMode.Rule" in unparse(t) for t, pol in g)
+                sites.append((fn, a_, rule_guard))
+    ok2 = any(rg for _, _, rg in sites)
+    anchor = sites[0][0] if sites else se
+    out.append(inst("RULE-ON-ENTER", HOLDS if ok2 else VIOLATION, anchor, "symbolic_mode / __enter__[a rule block opened on the query]",
+                    "opening a rule block on a query flags its descriptor as a rule" if ok2 else
                     "`with rule_mode(query):` does not flag the query's descriptor as a rule: for an(entity(v := let(type_=T), cond)) followed by "
                     "rule_mode(query) the selected variable is not inferred, and a match without an applicable conclusion (a stopping refinement) "
-                    "emits every T that exists", line=en.lineno))
+                    "emits every T that exists"))
+    for fn, a_, rg in sites:
+        if not rg:
+            out.append(inst("RULE-ON-ENTER", VIOLATION, fn, f"{fn.short}[{unparse(a_)[:40]}: only for rule blocks]",
+                            f"`{unparse(a_)}` flags the query as a rule whatever the mode of the block: `with symbolic_mode(query):` (a query-mode "
+                            f"block, used to bind predicates implicitly) turns a plain query into a rule, and it returns nothing from then on",
+                            line=a_.lineno))
+        else:
+            out.append(inst("RULE-ON-ENTER", HOLDS, fn, f"{fn.short}[{unparse(a_)[:40]}: only for rule blocks]",
+                            "set under a test for rule mode only", line=a_.lineno))
     return out
 
 
